@@ -100,10 +100,10 @@ MC_Slices ==
 
 (* ---- thorough --------------------------------------------------------------------- *)
 MCT_Slices ==
-  << Slice("ds", DS_A({0, 1, 2, 3, Neg(1), Neg(2)}, {0, 1, 2, 3, 4}, {1, 2, 3, 4, 8}, {2, 4, 4096}, Local, {1}), TreesT),
-     Slice("ds", DS_A({0, 1, 2, 3, Neg(1), Neg(2)}, {0, 1, 2, 3, 4}, {1, 2, 3, 4, 8}, {2, 4, 4096}, Sharded, {1, 2, 3}), TreesT),
-     Slice("ds", DS_B(AllGrafts, {0, 1, 2, Neg(1), Neg(2)}, {2, 8}, {1, 2}, Local, {1}), FewTreesT),
-     Slice("ds", DS_B(AllGrafts, {0, 1, 2, Neg(1), Neg(2)}, {2, 8}, {1, 2}, Sharded, {1, 2}), FewTreesT),
+  << Slice("ds", DS_A({0, 1, 2, 3, Neg(1), Neg(2)}, {0, 1, 2, 3, 4}, {1, 2, 3, 4, 8}, {2, 4096}, Local, {1}), TreesT),
+     Slice("ds", DS_A({0, 1, 2, 3, Neg(1), Neg(2)}, {0, 1, 2, 3, 4}, {1, 2, 3, 4, 8}, {2, 4096}, Sharded, {1, 2, 3}), Trees),
+     Slice("ds", DS_B(AllGrafts, {0, 1, 2, Neg(1), Neg(2)}, {2, 8}, {1, 2}, Local, {1}), TwoTrees \cup {X64F32(<< <<4, 3>>, <<5>>, <<>> >>)}),
+     Slice("ds", DS_B(AllGrafts, {0, 1, 2, Neg(1), Neg(2)}, {2, 8}, {1, 2}, Sharded, {1, 2}), TwoTrees),
      Slice("sm3", SM3Cfgs, TreesT \cup {X64F32(s) : s \in ShapeSets}),
      Slice("tf", TF_A({0, 1, 2, 3, 4, 8, 1024}, {1, 2, 3, 4, 8, 1024}, {0, 1, 2, 3, 8}), TreesT),
      Slice("tf", TF_B, FewTreesT),
